@@ -1,1 +1,385 @@
 // replay hooks for src/wal/mod.rs (included as a child module `verif_replay` of that file)
+//
+// C02 / C03 bounded check (end to end, real Tree on disk): acknowledged commits survive a process crash at
+// every point between the operations of a small workload, across memtable rotation (ArenaFull), background
+// flush + WAL clean-up, recovery that has to split an over-full WAL segment, recovery that has to repair a
+// torn tail, and a SECOND crash after committing to the recovered store.
+//
+// crash model: PROCESS CRASH - the image is a byte copy of the database directory taken while the store is
+// open and no commit is in flight (the copy is retried until the directory listing is identical before and
+// after it, so the image is a state the directory really was in).  `Torn` additionally commits one
+// unsynced record and chops the end of the newest WAL segment of the image (power loss that tears the last,
+// never-synced record): that record is not required to survive, everything synced before it is.
+//
+// Bound (stated): programs of <= `maxlen` operations from {small commit, delete of the last small key,
+// fill the active memtable to 3/4, one big value (forces ArenaFull after a fill), settle (wait for background
+// flush + WAL clean-up), rotate the memtable, flush the oldest immutable memtable, crash+reopen, crash+reopen
+// with a half-size memtable, torn-tail crash+reopen} plus 13 fixed longer programs;
+// memtable 64 KiB / 32 KiB; after every program: crash, reopen, compare, commit, crash, reopen, compare.
+use super::*;
+use crate::{Durability, LSMIterator as _, Tree, TreeBuilder};
+use std::collections::BTreeMap;
+use std::path::{Path, PathBuf};
+
+const MEM: usize = 64 * 1024;
+const MEM_SMALL: usize = 32 * 1024;
+
+#[derive(Clone, Copy, Debug, PartialEq)]
+enum COp {
+	Small,
+	Del,
+	Fill,
+	Big,
+	Settle,
+	/// the rotation that LsmCommitEnv::apply performs on ArenaFull, without waking the flush task
+	Rotate,
+	/// one step of the background flush task: flush the OLDEST immutable memtable (+ its WAL clean-up)
+	FlushOne,
+	Crash,
+	CrashSmall,
+	Torn,
+}
+
+fn listing(p: &Path, out: &mut Vec<(PathBuf, u64, std::time::SystemTime)>) {
+	let mut ents: Vec<_> = std::fs::read_dir(p).map(|r| r.filter_map(|e| e.ok()).collect()).unwrap_or_default();
+	ents.sort_by_key(|e: &std::fs::DirEntry| e.file_name());
+	for e in ents {
+		let path = e.path();
+		match e.metadata() {
+			Ok(m) if m.is_dir() => listing(&path, out),
+			Ok(m) => out.push((path, m.len(), m.modified().unwrap_or(std::time::UNIX_EPOCH))),
+			Err(_) => {}
+		}
+	}
+}
+
+fn copy_dir_all(src: &Path, dst: &Path) -> std::io::Result<()> {
+	std::fs::create_dir_all(dst)?;
+	for entry in std::fs::read_dir(src)? {
+		let entry = entry?;
+		let target = dst.join(entry.file_name());
+		if entry.file_type()?.is_dir() {
+			copy_dir_all(&entry.path(), &target)?;
+		} else {
+			std::fs::copy(entry.path(), &target)?;
+		}
+	}
+	Ok(())
+}
+
+/// a consistent image of `live`: retried until nothing in the directory changed while it was copied
+async fn crash_image(live: &Path, dst: &Path) -> bool {
+	for _ in 0..100 {
+		let mut before = Vec::new();
+		listing(live, &mut before);
+		let _ = std::fs::remove_dir_all(dst);
+		let copied = copy_dir_all(live, dst).is_ok();
+		let mut after = Vec::new();
+		listing(live, &mut after);
+		if copied && before == after {
+			return true;
+		}
+		tokio::time::sleep(std::time::Duration::from_millis(20)).await;
+	}
+	false
+}
+
+fn open(p: &Path, mem: usize) -> crate::Result<Tree> {
+	TreeBuilder::new().with_path(p.to_path_buf()).with_max_memtable_size(mem).with_memtable_stall_threshold(8).with_flush_on_close(false).build()
+}
+
+async fn put(tree: &Tree, k: &[u8], v: Option<&[u8]>, sync: bool) -> crate::Result<()> {
+	let mut t = tree.begin()?;
+	if sync {
+		t.set_durability(Durability::Immediate);
+	}
+	match v {
+		Some(v) => t.set(k.to_vec(), v.to_vec())?,
+		None => t.delete(k.to_vec())?,
+	}
+	t.commit().await
+}
+
+fn compare(tree: &Tree, model: &BTreeMap<Vec<u8>, Vec<u8>>, ignore_prefix: &[u8]) -> Option<String> {
+	let tx = tree.begin().unwrap();
+	for (k, v) in model {
+		match tx.get(k.clone()) {
+			Ok(Some(got)) if &got == v => {}
+			Ok(Some(got)) => return Some(format!("key {} reads a value of {} bytes starting {:?}, acknowledged value has {} bytes starting {:?}", String::from_utf8_lossy(k), got.len(), &got[..got.len().min(4)], v.len(), &v[..v.len().min(4)])),
+			Ok(None) => return Some(format!("acknowledged key {} is missing", String::from_utf8_lossy(k))),
+			Err(e) => return Some(format!("get {} failed: {e}", String::from_utf8_lossy(k))),
+		}
+	}
+	// nothing else may be there (deleted keys do not come back, no phantom keys)
+	let mut it = tx.range(b"a".to_vec(), b"zz".to_vec()).unwrap();
+	let mut ok = it.seek_first().unwrap();
+	while ok {
+		let k = it.key().user_key().to_vec();
+		if !model.contains_key(&k) && !k.starts_with(ignore_prefix) {
+			return Some(format!("key {} is present but was deleted or never acknowledged", String::from_utf8_lossy(&k)));
+		}
+		ok = it.next().unwrap();
+	}
+	None
+}
+
+async fn settle(tree: &Tree) {
+	for _ in 0..200 {
+		if tree.core.inner.immutable_count() == 0 {
+			break;
+		}
+		tokio::time::sleep(std::time::Duration::from_millis(10)).await;
+	}
+	// asynchronous WAL clean-up follows the flush
+	tokio::time::sleep(std::time::Duration::from_millis(60)).await;
+}
+
+fn tear_newest_wal(image: &Path) {
+	let wal_dir = image.join("wal");
+	let mut segs: Vec<_> = std::fs::read_dir(&wal_dir).map(|r| r.filter_map(|e| e.ok()).map(|e| e.path()).collect()).unwrap_or_default();
+	segs.sort();
+	if let Some(seg) = segs.last() {
+		let len = std::fs::metadata(seg).map(|m| m.len()).unwrap_or(0);
+		if len > 7 {
+			let f = std::fs::OpenOptions::new().write(true).open(seg).unwrap();
+			f.set_len(len - 5).unwrap();
+		}
+	}
+}
+
+/// runs one program (ending in: crash, compare, commit, crash, compare); Some(mismatch) if the store broke the property
+async fn run_program(script: Vec<COp>, root: PathBuf) -> Option<String> {
+	let small = vec![b's'; 200];
+	let medium = vec![b'm'; 6000];
+	let big = vec![b'B'; 20 * 1024];
+	let trace = std::env::var("VERIF_TRACE").is_ok();
+	let mut gen = 0usize;
+	let mut live = root.join(format!("g{gen}"));
+	let mut model: BTreeMap<Vec<u8>, Vec<u8>> = BTreeMap::new();
+	let mut smalls: Vec<Vec<u8>> = Vec::new();
+	let mut n = 0usize;
+	let mut bad: Option<String> = None;
+	let mut tree = match open(&live, MEM) {
+		Ok(t) => t,
+		Err(e) => return Some(format!("initial open failed: {e}")),
+	};
+	for (step, op) in script.iter().enumerate() {
+		if trace {
+			eprintln!("  step {step} {:?}", op);
+		}
+		if bad.is_some() {
+			break;
+		}
+		match *op {
+			COp::Small => {
+				n += 1;
+				let k = format!("k_small_{n:04}").into_bytes();
+				match put(&tree, &k, Some(&small), true).await {
+					Ok(()) => {
+						model.insert(k.clone(), small.clone());
+						smalls.push(k);
+					}
+					Err(e) => bad = Some(format!("step {step}: commit failed: {e}")),
+				}
+			}
+			COp::Del => {
+				if let Some(k) = smalls.pop() {
+					match put(&tree, &k, None, true).await {
+						Ok(()) => {
+							model.remove(&k);
+						}
+						Err(e) => bad = Some(format!("step {step}: delete failed: {e}")),
+					}
+				}
+			}
+			COp::Fill => {
+				let mut guard = 0;
+				while tree.core.inner.active_memtable.read().unwrap().size() < MEM * 3 / 4 && guard < 64 {
+					guard += 1;
+					n += 1;
+					let k = format!("k_fill_{n:04}").into_bytes();
+					match put(&tree, &k, Some(&medium), true).await {
+						Ok(()) => {
+							model.insert(k, medium.clone());
+						}
+						Err(e) => {
+							bad = Some(format!("step {step}: commit failed: {e}"));
+							break;
+						}
+					}
+				}
+			}
+			COp::Big => {
+				n += 1;
+				let k = format!("k_big_{n:04}").into_bytes();
+				match put(&tree, &k, Some(&big), true).await {
+					Ok(()) => {
+						model.insert(k, big.clone());
+					}
+					Err(e) => bad = Some(format!("step {step}: commit failed: {e}")),
+				}
+			}
+			COp::Settle => settle(&tree).await,
+			COp::Rotate => {
+				let _ = tree.core.inner.rotate_memtable();
+			}
+			COp::FlushOne => {
+				use crate::lsm::CompactionOperations;
+				if let Err(e) = tree.core.inner.compact_memtable() {
+					bad = Some(format!("step {step}: flush of the oldest immutable memtable failed: {e}"));
+				}
+				// asynchronous WAL clean-up follows the flush
+				tokio::time::sleep(std::time::Duration::from_millis(60)).await;
+			}
+			COp::Crash | COp::CrashSmall | COp::Torn => {
+				if *op == COp::Torn {
+					// one more record, never synced: it may be lost, nothing else may
+					n += 1;
+					let k = format!("torn_{n:04}").into_bytes();
+					if let Err(e) = put(&tree, &k, Some(&small), false).await {
+						bad = Some(format!("step {step}: commit failed: {e}"));
+						continue;
+					}
+				}
+				gen += 1;
+				let image = root.join(format!("g{gen}"));
+				if !crash_image(&live, &image).await {
+					bad = Some(format!("step {step}: harness could not take a stable image"));
+					continue;
+				}
+				if *op == COp::Torn {
+					tear_newest_wal(&image);
+				}
+				let _ = tree.close().await;
+				let _ = std::fs::remove_dir_all(&live);
+				live = image;
+				let mem = if *op == COp::CrashSmall { MEM_SMALL } else { MEM };
+				match open(&live, mem) {
+					Err(e) => {
+						bad = Some(format!("step {step}: reopen of the crash image failed: {e}"));
+						continue;
+					}
+					Ok(t) => tree = t,
+				}
+				if let Some(m) = compare(&tree, &model, b"torn_") {
+					bad = Some(format!("step {step} (after {:?}): {m}", op));
+				}
+			}
+		}
+	}
+	let _ = tree.close().await;
+	bad
+}
+
+async fn crash_enum_impl(maxlen: usize, name: &str, part: usize, parts: usize) {
+	let alpha = [COp::Small, COp::Del, COp::Fill, COp::Big, COp::Settle, COp::Rotate, COp::FlushOne, COp::Crash, COp::CrashSmall, COp::Torn];
+	let mut cases = 0u64;
+	let mut nontrivial = 0u64;
+	let mut failures: Vec<String> = Vec::new();
+	let mut hangs: Vec<String> = Vec::new();
+	let mut samples: Vec<String> = Vec::new();
+	let mut idx = 0usize;
+	// every program of <= maxlen operations, plus a fixed list of longer ones around rotation
+	let mut programs: Vec<Vec<COp>> = Vec::new();
+	for len in 1..=maxlen {
+		for code in 0..alpha.len().pow(len as u32) {
+			let mut ops = Vec::new();
+			let mut x = code;
+			for _ in 0..len {
+				ops.push(alpha[x % alpha.len()]);
+				x /= alpha.len();
+			}
+			programs.push(ops);
+		}
+	}
+	use COp::*;
+	let extra: Vec<Vec<COp>> = vec![
+		vec![Fill, Big, Settle],
+		vec![Fill, Big, Settle, Small],
+		vec![Fill, Big, Settle, Torn],
+		vec![Fill, Big, Fill, Big],
+		vec![Fill, Big, Fill, Big, Settle],
+		vec![Fill, Big, Crash, Fill, Big, Settle],
+		vec![Fill, CrashSmall, Fill, Big, Settle],
+		vec![Small, Del, Fill, Big, Settle, Del],
+		// several immutable memtables queued, flushed one at a time
+		vec![Small, Rotate, Small, Rotate, FlushOne],
+		vec![Small, Rotate, Small, Rotate, Small, FlushOne],
+		vec![Small, Rotate, Small, Rotate, FlushOne, FlushOne, Small],
+		vec![Fill, Rotate, Small, Rotate, Small, Rotate, FlushOne, Torn],
+		vec![Small, Rotate, Del, Rotate, FlushOne],
+	];
+	for ops in programs.into_iter().chain(extra.into_iter()) {
+		let len = ops.len();
+		for final_mem in [MEM, MEM_SMALL] {
+			idx += 1;
+			if idx % parts != part {
+				continue;
+			}
+			cases += 1;
+			let mut script: Vec<COp> = ops.clone();
+			// closing sequence: crash, compare, commit, crash, compare
+			script.push(if final_mem == MEM { COp::Crash } else { COp::CrashSmall });
+			script.push(COp::Small);
+			script.push(if final_mem == MEM { COp::Crash } else { COp::CrashSmall });
+			if std::env::var("VERIF_TRACE").is_ok() {
+				eprintln!("PROGRAM {:?}", script);
+			}
+			let root = tempdir::TempDir::new("verif_c02").unwrap();
+			// watchdog: a program that does not finish is reported as a hang (C17 territory), not as a lost commit
+			let h = tokio::spawn(run_program(script.clone(), root.path().to_path_buf()));
+			let bad = match tokio::time::timeout(std::time::Duration::from_secs(90), h).await {
+				Ok(Ok(b)) => b,
+				Ok(Err(e)) => Some(format!("the store panicked: {e}")),
+				Err(_) => {
+					if hangs.len() < 5 {
+						hangs.push(format!("\"{:?}\"", script));
+					}
+					None
+				}
+			};
+			let structural = ops.iter().filter(|o| matches!(o, COp::Fill | COp::Big | COp::Settle | COp::Rotate | COp::FlushOne)).count();
+			if structural >= 2 {
+				nontrivial += 1;
+				if samples.len() < 3 && len >= maxlen {
+					samples.push(format!("\"{:?} final_mem={final_mem}\"", ops));
+				}
+			}
+			if let Some(b) = bad {
+				if failures.len() < 5 {
+					failures.push(format!("{{\"program\":\"{:?}\",\"final_reopen_memtable\":{final_mem},\"mismatch\":{:?}}}", script, b));
+				}
+			}
+		}
+	}
+	println!(
+		"REPLAY-RESULT {{\"driver\":\"wal::{name}\",\"cases\":{cases},\"distinct_nontrivial\":{nontrivial},\"samples\":[{}],\"hangs\":[{}],\"failures\":[{}]}}",
+		samples.join(","),
+		hangs.join(","),
+		failures.join(",")
+	);
+	assert!(failures.is_empty());
+}
+
+#[tokio::test(flavor = "multi_thread", worker_threads = 2)]
+async fn crash_enum_quick() {
+	crash_enum_impl(2, "crash_enum_quick", 0, 1).await;
+}
+
+// the thorough tier is split into four drivers so that they run in parallel
+#[tokio::test(flavor = "multi_thread", worker_threads = 2)]
+async fn crash_enum_thorough_0() {
+	crash_enum_impl(3, "crash_enum_thorough_0", 0, 4).await;
+}
+#[tokio::test(flavor = "multi_thread", worker_threads = 2)]
+async fn crash_enum_thorough_1() {
+	crash_enum_impl(3, "crash_enum_thorough_1", 1, 4).await;
+}
+#[tokio::test(flavor = "multi_thread", worker_threads = 2)]
+async fn crash_enum_thorough_2() {
+	crash_enum_impl(3, "crash_enum_thorough_2", 2, 4).await;
+}
+#[tokio::test(flavor = "multi_thread", worker_threads = 2)]
+async fn crash_enum_thorough_3() {
+	crash_enum_impl(3, "crash_enum_thorough_3", 3, 4).await;
+}
